@@ -3,6 +3,7 @@
 -/
 import Driver.Codec
 import PyTreesModel.Edit
+import PyTreesModel.Idioms
 
 namespace Bt
 open Codec
@@ -97,9 +98,41 @@ def step (st : St) (line : String) : St × List String :=
       | _, _, _ => (st, ["bad-op"])
   | _ => (st, ["bad-op"])
 
-def init (treeLine : String) : Option St :=
-  match parseTree (tokens treeLine) with
-  | some (n, []) => some { tree := n, w := Store.empty, keys := treeKeys n }
+/-- names travel through the whitespace-separated protocol with `~` for a blank, `^` for a newline, `!` for a tab -/
+def decodeName (t : String) : String :=
+  String.ofList (t.toList.map (fun c => if c = '~' then ' ' else if c = '^' then '\n' else if c = '!' then '\t' else c))
+
+partial def parseTasks : List String → Option (List (String × Node))
+| [] => some []
+| nm :: rest => do
+    let (t, rest') ← parseTree rest
+    let more ← parseTasks rest'
+    pure ((decodeName nm, t) :: more)
+
+partial def parseTrees : List String → Option (List Node)
+| [] => some []
+| ts => do
+    let (t, rest) ← parseTree ts
+    let more ← parseTrees rest
+    pure (t :: more)
+
+/-- header of a scenario: `tree <spec>` or `idiom <kind> …` (the model builds the idiom itself) -/
+def initTree (toks : List String) : Option Node :=
+  match toks with
+  | "tree" :: spec => match parseTree spec with | some (n, []) => some n | _ => none
+  | "idiom" :: "pickup" :: rest => (parseTasks rest).map (fun ts => Idioms.renumber (Idioms.pickUp ts))
+  | "idiom" :: "oneshot" :: key :: path :: both :: rest =>
+      match parseTree rest with
+      | some (b, []) => some (Idioms.renumber (Idioms.oneshot b key (parsePath path) (both = "1")))
+      | _ => none
+  | "idiom" :: "eitheror" :: ns :: n :: rest => do
+      let n ← n.toNat?
+      let (cs, rest') ← parseChecks n rest
+      let ts ← parseTrees rest'
+      pure (Idioms.renumber (Idioms.eitherOr cs ts ns))
   | _ => none
+
+def init (headerLine : String) : Option St :=
+  (initTree (tokens headerLine)).map (fun n => { tree := n, w := Store.empty, keys := treeKeys n })
 
 end Bt
